@@ -95,14 +95,81 @@ def collect():
         if name not in found:
             raise ValueError("C07 consts: %s not found in QuicConnection.__init__" % name)
         out.append((name, found[name]))
-    return out
+    # ---- probes: behaviour that differs between trees (the model follows the tree under test) -------------
+    opt = []
+    tls_tree = ast.parse(open(os.path.join(src, "tls.py")).read())
+    mt = _module_assigns(tls_tree)
+    hm = _func(tls_tree, "handle_message")
+    cap = None
+    if "MAX_HANDSHAKE_MESSAGE_SIZE" in mt and hm is not None and _mentions(hm, "MAX_HANDSHAKE_MESSAGE_SIZE"):
+        cap = _int(mt["MAX_HANDSHAKE_MESSAGE_SIZE"], "MAX_HANDSHAKE_MESSAGE_SIZE")
+    opt.append(("TLS_MESSAGE_CAP", cap))           # tls.Context.handle_message refuses larger messages (decode_error)
+    rd = _func(conn, "receive_datagram")
+    pcap = None
+    if "MAX_NETWORK_PATHS" in ma and rd is not None and _mentions(rd, "MAX_NETWORK_PATHS"):
+        pcap = _int(ma["MAX_NETWORK_PATHS"], "MAX_NETWORK_PATHS")
+    opt.append(("NETWORK_PATHS_CAP", pcap))        # receive_datagram forgets the oldest non-active path beyond this
+    flags = []
+    hr = _func(conn, "_handle_reset_stream_frame")
+    st = ast.parse(open(os.path.join(src, "quic", "stream.py")).read())
+    hr2 = _func(st, "handle_reset")
+    if hr is None or hr2 is None:
+        raise ValueError("C07 consts: reset handlers not found")
+    flags.append(("RESET_ADVANCES_HIGHEST", _assigns_attr(hr, "highest_offset") or _assigns_attr(hr2, "highest_offset")))
+    hn = _func(conn, "_handle_new_connection_id_frame")
+    if hn is None:
+        raise ValueError("C07 consts: _handle_new_connection_id_frame not found")
+    # a sequence number below Retire Prior To that was never seen is retired at once (retire.append(...))
+    flags.append(("NCID_LATE_RETIRED", any(isinstance(n, ast.Call) and isinstance(n.func, ast.Attribute) and n.func.attr == "append"
+                                            and isinstance(n.func.value, ast.Name) and n.func.value.id == "retire" for n in ast.walk(hn))))
+    # retiring every known connection ID raises PROTOCOL_VIOLATION instead of IndexError (pop from an empty list)
+    flags.append(("NCID_EMPTY_CLOSES", any(isinstance(n, ast.If) and isinstance(n.test, ast.UnaryOp) and isinstance(n.test.op, ast.Not)
+                                            and isinstance(n.test.operand, ast.Attribute) and n.test.operand.attr == "_peer_cid_available"
+                                            and any(isinstance(b, ast.Raise) for b in n.body) for n in ast.walk(hn))))
+    hs = _func(conn, "_handle_stream_frame")
+    if hs is None:
+        raise ValueError("C07 consts: _handle_stream_frame not found")
+    # "was_finished = stream.receiver.is_finished ... if event is not None and not was_finished": no event for a
+    # frame that arrives after the receiving part finished
+    flags.append(("EVENT_SUPPRESSED_WHEN_FINISHED", _mentions(hs, "was_finished")))
+    al = _enum(tls_tree, "AlertDescription")
+    if "decode_error" not in al:
+        raise ValueError("C07 consts: AlertDescription.decode_error missing")
+    out.append(("ALERT_DECODE_ERROR", _int(al["decode_error"], "decode_error")))
+    ec2 = _enum(pkt, "QuicErrorCode")
+    out.append(("E_CRYPTO_ERROR", _int(ec2["CRYPTO_ERROR"], "CRYPTO_ERROR")))
+    return out, opt, flags
+
+
+def _func(tree, name):
+    for n in ast.walk(tree):
+        if isinstance(n, ast.FunctionDef) and n.name == name:
+            return n
+    return None
+
+
+def _mentions(fn, name):
+    return any(isinstance(n, ast.Name) and n.id == name for n in ast.walk(fn))
+
+
+def _assigns_attr(fn, attr):
+    for n in ast.walk(fn):
+        tg = n.targets if isinstance(n, ast.Assign) else ([n.target] if isinstance(n, ast.AugAssign) else [])
+        if any(isinstance(t, ast.Attribute) and t.attr == attr for t in tg):
+            return True
+    return False
 
 
 def generate():
     lines = ["(* GENERATED by tools/gen/c07_consts.py from $VERIF_REPO/src/aioquic -- do not edit *)",
              "From Coq Require Import ZArith.", "Open Scope Z_scope.", ""]
-    for name, v in collect():
+    consts, opt, flags = collect()
+    for name, v in consts:
         lines.append("Definition %s : Z := %d." % (name, v))
+    for name, v in opt:
+        lines.append("Definition %s : option Z := %s." % (name, "None" if v is None else "Some %d" % v))
+    for name, v in flags:
+        lines.append("Definition %s : bool := %s." % (name, "true" if v else "false"))
     _write_if_changed(OUT, "\n".join(lines) + "\n")
 
 
